@@ -345,3 +345,75 @@ func VerifH10d() {
 	w.checkReads("H10d.after")
 	nd.Reach("H10d.end")
 }
+
+// VerifH10e: hand-over to a root whose directory is being rotated. Two roots; the directory of one
+// or both of them has reached the limit (it is replaced by a fresh one in this very Set); the
+// write runs out of space on r1 mid-file or not at all. A root that reports more free space than
+// the failing one takes the write over and it succeeds - the fresh directory carries its root's
+// free space - and without a fault the write succeeds whenever some root has room.
+func VerifH10e() {
+	nd.SetPreemptionBound(0)
+	concreteCounter = true
+	roots := []string{"r1", "r2"}
+	cfg := stdConfig(roots...)
+	for _, r := range roots {
+		verifenv.Free[r] = nd.U64("free")
+	}
+	full := nd.Choice("directories-at-the-limit", 3) // 0: r2's, 1: r1's, 2: both
+	dirs := map[string]bool{}
+	if full != 1 {
+		dirs["r2/aaaaaaaa-aaaa-4aaa-8aaa-aaaaaaaaaaa2"] = true
+	}
+	if full != 0 {
+		dirs["r1/aaaaaaaa-aaaa-4aaa-8aaa-aaaaaaaaaaa1"] = true
+	}
+	for d := range dirs {
+		verifenv.FS.PutDir(d)
+	}
+	verifenv.ExtraEntries = func(dir string) uint64 {
+		if dirs[dir] {
+			return 100
+		}
+		return 0
+	}
+	w := newWorld(cfg, []string{"a"})
+	np := 1 + nd.Choice("pieces", 2)
+	var pieces [][]byte
+	var whole []byte
+	for i := 0; i < np; i++ {
+		pc := nd.Bytes("piece", 1+nd.Choice("piece-len", 2))
+		pieces = append(pieces, pc)
+		whole = append(whole, pc...)
+	}
+	fault := nd.Choice("r1-runs-full", 2) == 1
+	if fault {
+		atWrite := nd.Choice("failing-write", np)
+		seen, hit := 0, false
+		verifenv.FS.OnWrite = func(p string, n int) (int, error) {
+			if path.Dir(path.Dir(p)) != "r1" || hit {
+				return n, nil
+			}
+			k := seen
+			seen++
+			if k != atWrite {
+				return n, nil
+			}
+			hit = true
+			return nd.Choice("bytes-accepted", n), syscall.ENOSPC
+		}
+	}
+	err := w.d.SetReader(ctx, "a", &pieceReader{pieces: pieces, failAt: -1})
+	verifenv.FS.OnWrite = nil
+	verifenv.ExtraEntries = nil
+	if fault {
+		nd.Assert(nd.Implies(verifenv.Free["r2"] > verifenv.Free["r1"], err == nil), "H10e.continues-on-the-root-whose-directory-was-rotated")
+	} else {
+		nd.Assert(nd.Implies(nd.Or(verifenv.Free["r1"] > 0, verifenv.Free["r2"] > 0), err == nil), "H10e.fault-free-success-while-a-directory-is-rotated")
+	}
+	if err == nil {
+		w.vs = append(w.vs, rver{key: "a", val: whole, owner: 0, pos: w.tick()})
+		nd.Reach("H10e.success")
+	}
+	w.checkReads("H10e.after")
+	nd.Reach("H10e.end")
+}
